@@ -480,6 +480,9 @@ pub fn install_crash_guard() {
 // The proptest driver
 // ---------------------------------------------------------------------------------------------
 
+/// signature a replay closure returns for a replay of an engine it does not contain
+pub const FOREIGN_ENGINE: &str = "__foreign_engine__";
+
 pub struct Found<S> {
   pub scenario: S,
   pub failure: Failure,
@@ -728,18 +731,28 @@ impl Check {
         continue;
       }
       // still failing = at least one witness still fails with one of the listed signatures
+      let mut foreign = false;
       let still = if f.witnesses.is_empty() {
         true
       } else {
         f.witnesses.iter().any(|w| {
           let r = read_replay(w);
           match run(&r) {
+            // a witness recorded by an engine this binary does not contain cannot be re-run
+            // here: the finding stays open for this binary (another binary of the same check
+            // re-runs it and prints the line)
+            Some(fl) if fl.signature == FOREIGN_ENGINE => {
+              foreign = true;
+              true
+            }
             Some(fl) => f.signatures.iter().any(|s| *s == fl.signature),
             None => false,
           }
         })
       };
-      if still {
+      if still && foreign {
+        keep.push(f);
+      } else if still {
         let line = format!("KNOWN-FINDING: property={} {} — {}", prop, f.id, f.description);
         println!("{line}");
         self.known_lines.push(line);
